@@ -45,6 +45,7 @@ type runOut struct {
 	Acquired      int      `json:"acquired_events"`
 	Released      int      `json:"released_events"`
 	ByTimeout     int      `json:"released_by_timeout"`
+	Abandoned     int      `json:"streams_abandoned_near_idle_timeout"`
 	Problems      []string `json:"problems"`
 	Keys          []string `json:"keys"`
 	EventsTail    []event  `json:"events_tail,omitempty"`
@@ -59,7 +60,12 @@ type slowReader struct {
 	at    int64
 	n     int64
 	done  bool
+	// giveUp: after the stall the reader abandons the stream (returns an error
+	// without touching it again), so that its Close lands where the stall ends
+	giveUp bool
 }
+
+var errGaveUp = errors.New("reader gave up")
 
 func (s *slowReader) Read(p []byte) (int, error) {
 	if len(p) > 8192 {
@@ -68,6 +74,9 @@ func (s *slowReader) Read(p []byte) (int, error) {
 	if s.stall > 0 && !s.done && s.n >= s.at {
 		s.done = true
 		time.Sleep(s.stall)
+		if s.giveUp {
+			return 0, errGaveUp
+		}
 	} else if s.rnd.IntN(8) == 0 {
 		time.Sleep(time.Duration(s.rnd.IntN(3000)) * time.Microsecond)
 	}
@@ -122,6 +131,9 @@ func worker(args []string) {
 			evMu.Unlock()
 		}
 	})
+	// inside the idle-timer callback, between its "already closed?" test and the
+	// forced close
+	vexport.HookSetDelay("stream.idle.check", time.Duration(500+r.IntN(5000))*time.Microsecond)
 	for _, p := range []string{"stream.acquired", "stream.release.close", "stream.release.timeout", "reap.exec.begin", "plan.op.after"} {
 		if r.IntN(2) == 0 {
 			vexport.HookSetDelay(p, time.Duration(r.IntN(4000))*time.Microsecond)
@@ -227,7 +239,7 @@ func worker(args []string) {
 
 	// ---- readers ----
 	nReaders := 3 + r.IntN(4)
-	var streams, completed, timedOut, conflicts atomic.Int64
+	var streams, completed, timedOut, conflicts, abandoned atomic.Int64
 	for ri := 0; ri < nReaders; ri++ {
 		wg.Add(1)
 		rr := rand.New(rand.NewPCG(uint64(seed)*31+uint64(caseNo), uint64(ri)+5))
@@ -260,9 +272,16 @@ func worker(args []string) {
 				}
 				streams.Add(1)
 				sr := &slowReader{r: rc, rnd: rr}
-				if rr.IntN(4) == 0 {
+				switch rr.IntN(8) {
+				case 0, 1:
 					sr.stall = time.Duration(rt*2+rr.IntN(100)) * time.Millisecond
 					sr.at = int64(rr.IntN(20000))
+				case 2, 3:
+					// abandon the stream just about when its idle timer fires: the
+					// Close that follows meets the timer callback
+					sr.stall = time.Duration(rt)*time.Millisecond + time.Duration(rr.IntN(9000)-2000)*time.Microsecond
+					sr.at = int64(rr.IntN(20000))
+					sr.giveUp = true
 				}
 				// snapshot.Restore puts its temporary WAL files next to dst under fixed
 				// names, so every restore gets a directory of its own
@@ -286,7 +305,9 @@ func worker(args []string) {
 					cw.Wait()
 				}
 				if rerr != nil {
-					if errors.Is(rerr, snapshot.ErrSnapshotReaderTimeout) || strings.Contains(rerr.Error(), "idle timeout") || sr.done {
+					if errors.Is(rerr, errGaveUp) {
+						abandoned.Add(1)
+					} else if errors.Is(rerr, snapshot.ErrSnapshotReaderTimeout) || strings.Contains(rerr.Error(), "idle timeout") || sr.done {
 						timedOut.Add(1)
 					} else {
 						problem("stream-corrupt", "stream of snapshot %s (index %d) did not restore although it never stalled: %v", m.ID, meta.Index, rerr)
@@ -336,6 +357,7 @@ func worker(args []string) {
 	// quiescence: every stream is closed; the idle timers may still be pending
 	time.Sleep(time.Duration(rt*3+200) * time.Millisecond)
 	out.Streams, out.Completed, out.TimedOut, out.OpenConflicts = int(streams.Load()), int(completed.Load()), int(timedOut.Load()), int(conflicts.Load())
+	out.Abandoned = int(abandoned.Load())
 
 	// bounded progress: with no stream open a reap must get the write lock
 	var reapErr error
@@ -406,7 +428,7 @@ func worker(args []string) {
 }
 
 func run(c *vf.Ctx) {
-	c.Rule("run = one real snapshot.Store (reap threshold 2, read idle timeout 30-80 ms) driven for 5 s (quick) / 12 s (thorough) by a creator alternating full and incremental sinks fed with real SQLite data, 3-6 readers (open newest or a random listed snapshot, read through snapshot.Restore with random pauses, a quarter stalling beyond the idle timeout, close once / twice / concurrently), an explicit Reap caller and the auto-reaper, with seeded sleeps at the hook points around lock acquire/release; half of the runs in a -race build. Monitors: content of every stream read to EOF (restores to the database recorded for that snapshot index), ordered hook event log (no reap plan executes while a stream is open, acquisitions = releases, never more releases than acquisitions), reader-count panic, final Reap obtains the lock, race reports in snapshot/ and internal/rsync. non-trivial = run with >= 1 reap execution, >= 1 timed-out stream and >= 1 completed stream; distinct by case")
+	c.Rule("run = one real snapshot.Store (reap threshold 2, read idle timeout 30-80 ms) driven for 5 s (quick) / 12 s (thorough) by a creator alternating full and incremental sinks fed with real SQLite data, 3-6 readers (open newest or a random listed snapshot, read through snapshot.Restore with random pauses, a quarter stalling beyond the idle timeout, a quarter abandoning the stream just about when its idle timer fires, close once / twice / concurrently), an explicit Reap caller and the auto-reaper, with seeded sleeps at the hook points around lock acquire/release and inside the idle-timer callback; half of the runs in a -race build. Monitors: content of every stream read to EOF (restores to the database recorded for that snapshot index), ordered hook event log (no reap plan executes while a stream is open, acquisitions = releases, never more releases than acquisitions), reader-count panic, final Reap obtains the lock, race reports in snapshot/ and internal/rsync. non-trivial = run with >= 1 reap execution, >= 1 timed-out stream and >= 1 completed stream; distinct by case")
 	c.Assume("a stream that stalled beyond the idle timeout may fail; nothing is asserted about its bytes")
 	n := c.N(6, 60)
 	tmp := vf.TempDir("c11")
@@ -463,6 +485,7 @@ func run(c *vf.Ctx) {
 		c.Count("streams_timed_out", int64(o.TimedOut))
 		c.Count("reap_executions", int64(o.ReapExecs))
 		c.Count("released_by_timeout", int64(o.ByTimeout))
+		c.Count("streams_abandoned_near_idle_timeout", int64(o.Abandoned))
 		c.Count("open_refused_reap_active", int64(o.OpenConflicts))
 		c.Count("distinct_event_bigrams", int64(o.Interleavings))
 		if o.ReapExecs > 0 && o.TimedOut > 0 && o.Completed > 0 {
